@@ -14,6 +14,11 @@ parallel = 1 and with 2-3 real worker processes).  The DATAMIN / DATAMAX cards o
 astropy (not toasty) and compared at float32 precision with TLC's range; for the Builder runs the ImageSet's
 data_min / data_max and the DataMin / DataMax attributes of the written index_rel.wtml are compared with the root's
 expected range.
+
+Workflow binding: toasty.tile_fits / FitsTiler in TOAST mode on 2-3 tiny FITS images far apart on the sky with distinct
+value ranges, every input order.  The finite range of every LEAF file on disk is read back and handed to TLC as the
+leaf table of a Cascade.tla case; TLC computes the expected range of every ancestor and the root (RangeRule), which is
+compared with the cards of every tile, the returned Builder's data_min / data_max and the WTML.
 """
 from lib import repo
 
@@ -37,6 +42,156 @@ ENUM_MATRICES_THOROUGH = base.ENUM_MATRICES_QUICK + [
 ENUM_EXPR_THOROUGH = ("EnumCases(\"Float\", TRUE, FALSE, LeafMapsOver({%s}), <<6>>, TRUE)" % ", ".join(ENUM_MATRICES_THOROUGH))
 
 
+# ------------------------------------------------------------------------------------------------
+# the tile_fits / FitsTiler workflow in TOAST mode (several images of disjoint footprints)
+# ------------------------------------------------------------------------------------------------
+
+# (RA, Dec of the centre, lowest value, highest value): far apart on the sky, distinct value ranges
+WF_IMAGES = [(30.0, 30.0, 100.0, 200.0), (210.0, -30.0, 1.0, 2.0), (300.0, 20.0, -50.0, -40.0)]
+
+
+def workflow_run(args):
+    """Real run: toasty.tile_fits in TOAST mode on tiny FITS images, then read EVERYTHING back with astropy:
+    the finite data range of every leaf file (ground truth), the cards of every tile, the Builder, the WTML."""
+    scratch, order, start, parallel = args
+    repo.setup()
+    import glob
+    import os
+    import tempfile
+    import warnings
+    import xml.etree.ElementTree as ET
+    import numpy as np
+    from astropy.io import fits
+    from astropy.wcs import WCS
+    warnings.simplefilter("ignore")
+    work = tempfile.mkdtemp(prefix="c14wf-", dir=scratch)
+    paths = []
+    n = 24
+    for k in order:
+        ra, dec, lo, hi = WF_IMAGES[k]
+        w = WCS(naxis=2)
+        w.wcs.ctype = ["RA---TAN", "DEC--TAN"]
+        w.wcs.crval = [ra, dec]
+        w.wcs.crpix = [n / 2 + 0.5, n / 2 + 0.5]
+        w.wcs.cdelt = [-0.1, 0.1]
+        data = np.linspace(lo, hi, n * n, dtype=np.float32).reshape((n, n))
+        data[3, 5] = np.nan
+        path = os.path.join(work, "img%d.fits" % k)
+        fits.writeto(path, data, header=w.to_header(), overwrite=True)
+        paths.append(path)
+    out = os.path.join(work, "tiled")
+    obs = {"order": list(order), "start": start, "parallel": parallel, "error": None, "leaves": {}, "tiles": {}}
+    try:
+        from toasty import TilingMethod, tile_fits
+        _dir, bld = tile_fits(fits=paths, out_dir=out, tiling_method=TilingMethod.TOAST, parallel=parallel, override=True, start=start)
+        obs["imgset"] = (float(bld.imgset.data_min), float(bld.imgset.data_max))
+    except BaseException as e:  # noqa
+        obs["error"] = repr(e)
+        return obs
+    found, _other = base.scan_tiles(out, "fits")
+    for pos, path in found.items():
+        with fits.open(path) as hdul:
+            hdr = dict((k, float(hdul[0].header[k])) for k in ("DATAMIN", "DATAMAX") if k in hdul[0].header)
+            obs["tiles"][pos] = hdr
+            if pos[0] == start:
+                d = np.asarray(hdul[0].data)
+                d = d[np.isfinite(d)]
+                obs["leaves"][pos] = (float(d.min()), float(d.max())) if d.size else None
+    wtml = os.path.join(out, "index_rel.wtml")
+    if os.path.exists(wtml):
+        obs["wtml"] = [(float(e.get("DataMin", "0")), float(e.get("DataMax", "0"))) for e in ET.parse(wtml).getroot().iter("ImageSet")]
+    return obs
+
+
+def workflow_cases(ctx, quick):
+    """Run the workflow on the real code (2 and 3 images, every input order) and turn what the leaf files hold into
+    Cascade.tla cases: every stored leaf becomes an abstract leaf holding its observed finite minimum and maximum
+    (as ranks in the sorted table of observed values: min / max commute with the order-preserving map), so that TLC
+    computes the expected range of every ancestor and the root by the spec's rule."""
+    import concurrent.futures as cf
+    import itertools
+    import multiprocessing as mp
+    runs = []
+    for nimg in (2, 3):
+        for order in itertools.permutations(range(nimg)):
+            # start level 3: at level 2 the samplers' bounding-box filters are still too coarse to tell the images apart
+            runs.append((ctx.scratch, order, 3, 1))
+    if not quick:
+        runs += [(ctx.scratch, order, 4, 1) for order in itertools.permutations(range(3))]
+        runs += [(ctx.scratch, order, 2, 1) for order in itertools.permutations(range(2))]
+        runs += [(ctx.scratch, (0, 1), 3, 2), (ctx.scratch, (2, 0, 1), 4, 2)]
+    with cf.ProcessPoolExecutor(max_workers=8, mp_context=mp.get_context("fork"), initializer=base._quiet_worker) as ex:
+        observed = list(ex.map(workflow_run, runs))
+    tasks = {}
+    for i, obs in enumerate(observed):
+        ctx.count()
+        if obs["error"]:
+            ctx.violation("C14:workflow-raised:fits", "tile_fits (TOAST, images %s, start %d, parallel %d) raised %s"
+                          % (obs["order"], obs["start"], obs["parallel"], obs["error"]), {"order": obs["order"], "start": obs["start"]})
+            continue
+        vals = sorted(set(v for r in obs["leaves"].values() if r for v in r))
+        rank = dict((v, k) for k, v in enumerate(vals))
+        leaves = {}
+        for pos, r in obs["leaves"].items():
+            if r is None:
+                # a stored leaf with no finite value: one +inf pixel stands for "defined, not finite"
+                leaves[pos] = (((1, 0), ()), ((), ()))
+            else:
+                leaves[pos] = (((rank[r[0]],), (rank[r[1]],)), ((), ()))
+        if len(leaves) < len(obs["order"]):
+            ctx.machinery("workflow run %s produced only %d leaves" % (obs["order"], len(leaves)))
+        case = {"id": 9000 + i, "T": 2, "depth": obs["start"], "fmt": "fits", "dtag": "f4", "mode": "Float", "run": "workflow",
+                "keepu": False, "leaves": leaves, "stale": set(), "live": set(leaves), "sv": (0,), "scale": 1.0,
+                "has_data": True, "has_finite": True, "negzero": False, "rewrite": False,
+                "obs": obs, "rankvals": vals, "compare": ("checks.c14", "workflow_compare")}
+        tasks.setdefault(obs["start"], []).append(case)
+    return [{"name": "MCC14wf%d" % d, "T": 2, "depth": d, "cases": cs, "chunk": 60, "window": 2 if d >= 3 else None}
+            for d, cs in sorted(tasks.items())]
+
+
+def workflow_compare(meta, rec):
+    """TLC's expected ranges (ranks -> observed values) against the cards of every tile, the Builder and the WTML."""
+    import numpy as np
+    obs, vals = meta["obs"], meta["rankvals"]
+    out = []
+    what = "tile_fits TOAST images %s start %d parallel %d" % (obs["order"], obs["start"], obs["parallel"])
+
+    def add(key, msg):
+        out.append(("C14", "V", key, "%s [%s]" % (msg, what)))
+
+    def f32(pair):
+        return (np.float32(pair[0]), np.float32(pair[1]))
+    tiles = dict((tuple(k), v) for k, v in obs["tiles"].items())
+    root = None
+    for t in rec["final"]:
+        p = tuple(t["pos"])
+        want = f32((vals[t["rng"][0]], vals[t["rng"][1]])) if t["rng"] else None
+        if p == (0, 0, 0):
+            root = want
+        if p not in tiles:
+            add("workflow-tile-range", "tile %s is missing although leaf tiles lie beneath it (their range %s is lost to its ancestors)" % (p, want))
+            break
+        hdr = tiles[p]
+        if want is None:
+            if hdr:
+                add("workflow-tile-range", "tile %s records %s although no finite value lies beneath it" % (p, hdr))
+                break
+            continue
+        got = f32((hdr.get("DATAMIN", np.nan), hdr.get("DATAMAX", np.nan)))
+        if got != want:
+            add("workflow-tile-range", "tile %s records DATAMIN/DATAMAX = %s, the leaf tiles beneath it range over %s" % (p, got, want))
+            break
+    if root is not None:
+        if f32(obs["imgset"]) != root:
+            add("workflow-imageset-range", "the returned Builder has data_min/data_max = %s, the leaf tiles range over %s" % (f32(obs["imgset"]), root))
+        w = obs.get("wtml")
+        if not w or len(w) != 1:
+            out.append(("C14", "D", "wtml-shape", "index_rel.wtml holds %s ImageSet elements [%s]" % (len(w or []), what)))
+        elif f32(w[0]) != root:
+            add("workflow-wtml-range", "index_rel.wtml has DataMin/DataMax = %s, the leaf tiles range over %s" % (f32(w[0]), root))
+    return out, {"tiles": len(rec["final"])}
+
+
 def run(ctx):
     repo.setup(ctx)
     ctx.rule = ("FITS cases = (data type, start depth 1-2, sparse leaf population, leaf matrices with NaNs incl. entirely-NaN leaves, stale "
@@ -47,6 +202,7 @@ def run(ctx):
     quick = ctx.quick
     tasks = [{"name": "MCC14enum", "T": 2, "depth": 1, "expr": ENUM_EXPR_QUICK if quick else ENUM_EXPR_THOROUGH,
               "family": "each of the 4 leaves absent or one of %s, bottom-up" % ("3 matrices" if quick else "10 matrices (11^4 populations)")}]
+    tasks += workflow_cases(ctx, quick)
     tasks += base.plan_binding(ctx, "C14", PLAN, PARALLEL_PLAN, only_fits=True, builder_runs=14 if quick else 150,
                                allow_keepu=False, rewrite_p=0.35)
     def enum_jobs(t, recs):
